@@ -154,19 +154,45 @@ def problems(pool, tier):
     raise ValueError(pool)
 
 
-def do_call(lib, obj, prob):
+def alt_problem(prob):
+    """same method and shapes, different data (scaled by 1.5, one entry shifted)."""
     meth, args = prob
-    qargs = [G.to_quat(a) if isinstance(a, np.ndarray) else a for a in args]
+    out = []
+    for a in args:
+        if isinstance(a, np.ndarray):
+            b = a * 1.5
+            b[(0,) * (b.ndim - 1)] += np.array([0.5, 0.0, -0.25, 0.0])
+            out.append(b)
+        else:
+            out.append(a)
+    return meth, tuple(out)
+
+
+def do_call(lib, obj, prob, reuse=None):
+    """reuse: list of quaternion arrays of a previous call; if given, the new data are written INTO these
+    objects (same identity, same shape) instead of allocating fresh arrays."""
+    meth, args = prob
+    if reuse is None:
+        qargs = [G.to_quat(a) if isinstance(a, np.ndarray) else a for a in args]
+    else:
+        qargs = []
+        for a, old in zip(args, reuse):
+            if isinstance(a, np.ndarray):
+                old[...] = G.to_quat(a)
+                qargs.append(old)
+            else:
+                qargs.append(a)
     before = [a.tobytes() if isinstance(a, np.ndarray) else repr(a) for a in qargs]
     np.random.seed(424242)
     ok, res = call(getattr(obj, meth), *qargs)
     after = [a.tobytes() if isinstance(a, np.ndarray) else repr(a) for a in qargs]
+    do_call.last_args = qargs
     return ok, res, before == after
 
 
 def _reference(arg):
     """Runs in a pristine forked process: fresh object, one call."""
-    cell, pi, tier = arg
+    cell, pi, tier, alt = arg
     devnull = os.open(os.devnull, os.O_WRONLY)
     os.dup2(devnull, 1)
     np.seterr(all="ignore")
@@ -174,8 +200,9 @@ def _reference(arg):
 
     lib = load()
     obj = getattr(lib.solver, cell["cls"])(**cell["kw"])
-    ok, res, _ = do_call(lib, obj, problems(cell["pool"], tier)[pi])
-    return (cell["id"], pi), (ok, canon_result(res, cell) if ok else repr(type(res)))
+    prob = problems(cell["pool"], tier)[pi]
+    ok, res, _ = do_call(lib, obj, alt_problem(prob) if alt else prob)
+    return (cell["id"], pi, alt), (ok, canon_result(res, cell) if ok else repr(type(res)))
 
 
 _REF = {}
@@ -186,7 +213,7 @@ def cases(tier, seed):
     cs = cells()
     npool = 4 if tier == "quick" else 5
     npools = {c["id"]: npool + (1 if c["pool"] == "sys" else 0) for c in cs}
-    jobs = [(c, pi, tier) for c in cs for pi in range(npools[c["id"]])]
+    jobs = [(c, pi, tier, alt) for c in cs for pi in range(npools[c["id"]]) for alt in (0, 1)]
     ctx = mp.get_context("fork")
     with ctx.Pool(min(16, len(jobs)), maxtasksperchild=1) as pool:
         _REF = dict(pool.map(_reference, jobs, chunksize=1))
@@ -367,7 +394,7 @@ def run_case(case, seed):
             ok, res, args_same = do_call(lib, obj, probs[pi])
             ncalls += 1
             got = (ok, canon_result(res, cell) if ok else repr(type(res)))
-            ref = _REF[(cell["id"], pi)]
+            ref = _REF[(cell["id"], pi, 0)]
             if not args_same:
                 fails.append(fail("argument_mutated", f"call {step} (problem {pi}) modified its arguments", **tags))
             if got != ref:
@@ -382,6 +409,15 @@ def run_case(case, seed):
                     )
                 )
                 break
+            states.append(digest(canon(vars(obj))))
+        if not fails:
+            # aliased input: write different data of the same shapes INTO the argument objects of the last call
+            pi = case["hist"][-1]
+            ok, res, args_same = do_call(lib, obj, alt_problem(probs[pi]), reuse=do_call.last_args)
+            ncalls += 1
+            got = (ok, canon_result(res, cell) if ok else repr(type(res)))
+            if got != _REF[(cell["id"], pi, 1)]:
+                fails.append(fail("stale_result_after_inplace_update", f"history {case['hist']}: after overwriting the arguments of the last call in place, the result differs from a fresh {cell['cls']} on the new data", **tags))
             states.append(digest(canon(vars(obj))))
         changed = len(set(states)) > 1
         return {"key": case["key"], "fails": fails, "nontrivial": True, "digest": case["key"], "states": sorted(set(states)), "transitions": ncalls, "traces": 0 if fails else 1,
